@@ -23,4 +23,4 @@ TRUSTED = ["model: coq/theories/Model/Codec.v, ChkC09.v (hand written, tied byte
 ASSUMPTIONS = ["a bias is its fixed-width byte string (bit-for-bit round trip is what is proved; value-level equality follows for non-NaN)",
                "the order of constraints in a CQM is not part of the model (from_file iterates a set of labels)",
                "BQMs of dtype object are compared after conversion to float64 (documented behaviour of to_file)"]
-PARTIAL = ['bqm_body_decode_encode_partial: body only (no header / labels)', 'bqm_decode_encode_partial: whole BQM file v1/v2 with the JSON text layers (header dictionary, label list) as hypotheses HdrOK / LabelsOK - json round trip is checked byte-for-byte by the correspondence only', 'qm_decode_encode, expr_decode_encode, label_roundtrip: NOT proved (models + byte-exact correspondence exist; the framing theorems header_roundtrip / typed_section_roundtrip apply to each of their sections)']
+PARTIAL = ['float labels, non-ASCII and control-character strings are outside the modelled JSON subset (LabelsWF): covered by the implementation round trip only', 'ignore_labels_is_relabel is not a separate theorem: at file level ignore_labels only sets the label field to None (v2) / range(n) (v1), so it is the instance of bqm_decode_encode for that content; the relabelling itself is checked on the implementation (exact state comparison)', 'rebuilding the full adjacency from the lower triangles (add_quadratic_from_arrays / add_quadratic_back) is not modelled: the file-level record keeps what is in the file']
